@@ -13,6 +13,7 @@ import subprocess
 import sys
 
 from pycoin.ecdsa.Curve import Curve
+from pycoin.ecdsa.encrypt import generate_shared_public_key
 from pycoin.ecdsa.Generator import Generator
 from pycoin.ecdsa.Point import NoSuchPointError, Point
 
@@ -152,6 +153,9 @@ class RegMachine:
             elif op == "mul":
                 k = self.kval(a)
                 r = R[i] * k if self.flip else k * R[i]
+            elif op == "shared":
+                # the key-agreement entry point takes the scalar and a coordinate PAIR (never infinity, see ECRegs.tla)
+                r = generate_shared_public_key(self.kval(a), (R[i][0], R[i][1]), self.bgen if self.flip else g)
             elif op == "clear":
                 r = g.infinity()
             else:
